@@ -474,7 +474,7 @@ def _helpers(chk, facts, pm, rd):
         f = syn.one_fn("comma_delimited", mod="generate::ast")
         fa = [n for n in walk(inline_lets(f["body"])) if n.get("k") == "macro" and n.get("name", "").endswith("format_args") and n.get("args")]
         s = src(f["body"]).replace(" ", "")
-        ok = len(fa) == 1 and format_sequence(fa[0]) == ["to_py(item,ind)", ", "] and "if(s.len()>2){s.remove((s.len()-2));}" in s and s.endswith("String::from(s.trim_end())}")
+        ok = len(fa) == 1 and format_sequence(fa[0]) == ["to_py(item,ind)", ", "] and ("if(s.len()>2){s.remove((s.len()-2));}" in s or "if(2<s.len()){s.remove((s.len()-2));}" in s) and s.endswith("String::from(s.trim_end())}")
         chk.ob("R-C02-2", "comma_delimited", ok, "comma_delimited: items joined by `, `, trailing comma removed" if ok else "comma_delimited changed shape", facts.loc_of(f))
         # newline_if_body, folded over an empty block, a block and a single statement at two depths with `to_py` as a marker: a newline, then
         # the body one level deeper (a block prints its own indentation; an empty body is `pass`)
@@ -597,7 +597,9 @@ def _nonempty_list_expr(e, f, anc):
         # (c) the last element of a non-empty input was replaced: inside `Some(last)` of `<name>.last()`
         for a in anc:
             if a.get("k") == "match" and src(strip(a["e"])).replace(" ", "").endswith(f"{name}.last()") or \
-                    (a.get("k") == "match" and "statements.last()" in src(strip(a["e"])).replace(" ", "")):
+                    (a.get("k") == "match" and "statements.last()" in src(strip(a["e"])).replace(" ", "")) or \
+                    (a.get("k") == "if" and isinstance(a.get("c"), dict) and a["c"].get("k") == "let" and src(a["c"]["pat"]).replace(" ", "").startswith("Some(") and
+                     "statements.last()" in src(strip(a["c"]["e"])).replace(" ", "") and any(x is e for x in walk(a["then"]))):
                 return "replace-last"
         # (e) a private helper that builds the block from (a copy of) its parameter: non-empty when it is at every call site - the call sits in
         #     the `Some(..)` arm of `<argument>.last()` (the helper replaces the last statement of a non-empty block)
@@ -623,7 +625,10 @@ def _nonempty_list_expr(e, f, anc):
                         if anc_g is None:
                             anc_g = _ancestors(g["body"])
                         arg = src(strip(c_["args"][idx])).replace(" ", "")
-                        if not any(a_.get("k") == "match" and src(strip(a_["e"]), -30).replace(" ", "").endswith(f"{arg}.last()") for a_ in anc_g.get(id(c_), [])):
+                        if not any((a_.get("k") == "match" and src(strip(a_["e"]), -30).replace(" ", "").endswith(f"{arg}.last()")) or
+                                   (a_.get("k") == "if" and isinstance(a_.get("c"), dict) and a_["c"].get("k") == "let" and
+                                    src(strip(a_["c"]["e"]), -30).replace(" ", "").endswith(f"{arg}.last()") and any(x is c_ for x in walk(a_["then"])))
+                                   for a_ in anc_g.get(id(c_), [])):
                             sites_ok = False
             if n_sites and sites_ok:
                 return "replace-last (at every call site of the helper)"
@@ -938,7 +943,7 @@ def _literals(chk, facts):
                "the string loop of the lexer can end because the input ran out and the token is created all the same: an unterminated string (or an unclosed `{` in it) "
                "swallows the rest of the file and is printed as an unterminated Python string", loc)
         dec = [n for n in walk(loop["body"]) if n.get("k") == "if" and "'}'" in src(n["c"])]
-        ok = any(re.search(r"build_cur_expr>0", src(n["c"]).replace(" ", "")) for n in dec)
+        ok = any(re.search(r"build_cur_expr>0|0<build_cur_expr", src(n["c"]).replace(" ", "")) for n in dec)
         chk.ob("R-C02-7", "string-loop:brace-counter-non-negative", ok, "a `}` decrements the interpolation depth only when one is open" if ok else
                "a `}` without an open `{` drives the interpolation counter negative: the closing quote is no longer recognised (`\"}\"`)", loc)
     except AnchorError as e:
